@@ -155,7 +155,7 @@ func PolynomialRegression(xs, ys, weights []float64, degree int) PolynomialRegre
 		d := d
 		terms[d] = func(xs, termOut []float64) {
 			for i, x := range xs {
-				termOut[i] = math.Pow(x, float64(d+1))
+				termOut[i] = math.Pow(x, float64(d))
 			}
 		}
 	}
